@@ -336,15 +336,22 @@ def m_ldexp(eng, st, args, kw, fr):
         except Exception as ex:
             return [(st, RAISE, ex)]
     lo, hi = bounds(m)
-    if max(abs(lo), abs(hi)) >= 1 << 53:
+    if max(abs(lo), abs(hi)) > 1 << 53:
         raise Unsupported('ldexp of an int that is not exactly a double')
     # exact for results in the normal range; OverflowError at/above 2**1024; subnormal range excluded
-    amin = 0 if lo <= 0 <= hi else min(abs(lo), abs(hi))
+    if lo <= 0 <= hi and eng.feasible(st.pc, zt(m) == bvv(0)):
+        raise Unsupported('ldexp of a possibly zero mantissa')
     amax = max(abs(lo), abs(hi))
-    if amin == 0 or amin.bit_length() != amax.bit_length():
-        raise Unsupported('ldexp: mantissa bit length not fixed by the harness shape')
-    L = amax.bit_length()
-    top = binop(operator.add, e, L)     # value in [2**(top-1), 2**top)
+    amin = 1 if lo <= 0 <= hi else min(abs(lo), abs(hi))
+    if is_sym(m):
+        am = m_abs(eng, st, [m], {}, fr)[0][2]
+        L = None
+        for k in range(amax.bit_length(), amin.bit_length() - 1, -1):
+            L = bvv(k) if L is None else z3.If(z3.ULT(zt(am), bvv(1 << k)), bvv(k), L)
+        L = mk_int(L, amin.bit_length(), amax.bit_length())
+    else:
+        L = abs(m).bit_length()
+    top = binop(operator.add, e, L)     # |value| in [2**(top-1), 2**top)
     outs = []
     ov = cmp_ints('>', top, 1024)
     un = cmp_ints('<', binop(operator.sub, top, 1), -1022)
@@ -509,7 +516,31 @@ def m_object_new(eng, st, args, kw, fr):
         return [(st, RAISE, e)]
 
 
+class SComplex:
+    def __init__(self, real, imag):
+        self.real = real
+        self.imag = imag
+
+
+def m_complex(eng, st, args, kw, fr):
+    if any(isinstance(a, SFloat) for a in args):
+        if len(args) != 2:
+            raise Unsupported('complex() of one float-model value')
+        return _ret(st, SComplex(args[0], args[1]))
+    if has_sym(list(args)):
+        raise Unsupported('complex() of symbolic')
+    if has_unknown(list(args)):
+        return eng.unknown_call(st, Unknown('complex'), args, kw)
+    from .engine import is_mp_object, is_mp_function
+    if args and is_mp_object(args[0]):
+        c = eng.find_class_attr(type(args[0]), '__complex__')
+        if is_mp_function(c):
+            return eng.call(st, c, [args[0]], {}, fr)
+    return eng.native_call(st, complex, args, kw)
+
+
 DEFAULT_MODELS = {
+    complex: m_complex,
     int: m_int, abs: m_abs, min: m_minmax(True), max: m_minmax(False), divmod: m_divmod,
     bool: m_bool, _bisect.bisect: m_bisect, _bisect.bisect_right: m_bisect, len: m_len,
     isinstance: m_isinstance, type: m_type, hasattr: m_hasattr, getattr: m_getattr, setattr: m_setattr,
